@@ -78,7 +78,7 @@ func closureQueries(id string, kind Kind, u closureUniverse, m *Model) []Op {
 	case "C14":
 		for _, meth := range []string{"all", "backward", "topk", "bottomk", "prefix", "range"} {
 			for stop := -1; stop <= n; stop++ {
-				o := Op{Op: "iter", M: meth, Stop: stop, Re: 2, Btw: (stop + 2) % 2, N: uint64(n)}
+				o := Op{Op: "iter", M: meth, Stop: stop, Re: 2, Btw: (stop + 4) % 4, N: uint64(n)}
 				switch meth {
 				case "prefix":
 					if !kind.HasPrefix() || len(u.keys[0]) == 0 {
@@ -121,7 +121,7 @@ func closureQueries(id string, kind Kind, u closureUniverse, m *Model) []Op {
 		if kind.HasPrefix() && len(u.keys[0]) > 0 {
 			ops = append(ops, Op{Op: "prefix", K: clone(u.keys[0][:1])})
 		}
-		ops = append(ops, Op{Op: "iter", M: "all", Stop: 1, Re: 1})
+		ops = append(ops, Op{Op: "iter", M: "all", Stop: 1, Re: 1, Btw: 2}, Op{Op: "iter", M: "backward", Stop: 0, Re: 1, Btw: 2})
 	}
 	return ops
 }
